@@ -1,4 +1,4 @@
-use hashbrown::{HashSet};
+use hashbrown::HashMap;
 use std::collections::BTreeMap;
 
 use crate::adt::{AdtMetadata, FieldPosition};
@@ -14,7 +14,7 @@ pub struct AdtDeserializer<'a, 'b, 'c> {
 
     stored_version: u8,
     made_optional_at: BTreeMap<FieldPosition, u8>,
-    removed_fields: HashSet<String>,
+    removed_fields: HashMap<String, u8>,
     inputs: Vec<InputRegion>,
 }
 
@@ -30,7 +30,7 @@ impl<'a, 'b, 'c> AdtDeserializer<'a, 'b, 'c> {
             read_constructor_idx: None,
             stored_version: 0,
             made_optional_at: BTreeMap::new(),
-            removed_fields: HashSet::new(),
+            removed_fields: HashMap::new(),
             inputs: Vec::new(),
         })
     }
@@ -48,7 +48,7 @@ impl<'a, 'b, 'c> AdtDeserializer<'a, 'b, 'c> {
 
         let mut inputs = Vec::with_capacity(serialized_evolution_steps.len());
         let mut made_optional_at = BTreeMap::new();
-        let mut removed_fields = HashSet::new();
+        let mut removed_fields = HashMap::new();
 
         for (idx, serialized_evolution_step) in serialized_evolution_steps.iter().enumerate() {
             match serialized_evolution_step {
@@ -62,7 +62,7 @@ impl<'a, 'b, 'c> AdtDeserializer<'a, 'b, 'c> {
                     inputs.push(InputRegion::empty());
                 }
                 SerializedEvolutionStep::FieldRemoved { field_name } => {
-                    removed_fields.insert(field_name.clone());
+                    removed_fields.insert(field_name.clone(), idx as u8);
                     inputs.push(InputRegion::empty());
                 }
                 _ => {
@@ -88,7 +88,7 @@ impl<'a, 'b, 'c> AdtDeserializer<'a, 'b, 'c> {
         field_name: &str,
         field_default: Option<T>,
     ) -> Result<T> {
-        if self.removed_fields.contains(field_name) {
+        if self.is_removed(field_name) {
             Err(Error::FieldRemovedInSerializedVersion(
                 field_name.to_string(),
             ))
@@ -141,7 +141,7 @@ impl<'a, 'b, 'c> AdtDeserializer<'a, 'b, 'c> {
         field_name: &str,
         field_default: Option<Option<T>>,
     ) -> Result<Option<T>> {
-        if self.removed_fields.contains(field_name) {
+        if self.is_removed(field_name) {
             Ok(None)
         } else {
             let chunk = *self
@@ -204,6 +204,22 @@ impl<'a, 'b, 'c> AdtDeserializer<'a, 'b, 'c> {
     /// The constructor index stored in the data (read on first use).
     pub fn read_constructor_idx(&mut self) -> Result<u32> {
         self.read_or_get_constructor_idx()
+    }
+
+    /// A removal recorded in the data concerns the field only if it happened after the step that
+    /// added the field as this version knows it (a removed name can be added again later).
+    fn is_removed(&self, field_name: &str) -> bool {
+        match self.removed_fields.get(field_name) {
+            Some(removed_at) => {
+                let added_at = *self
+                    .metadata
+                    .field_generations
+                    .get(field_name)
+                    .unwrap_or(&0);
+                *removed_at > added_at
+            }
+            None => false,
+        }
     }
 
     fn record_field_index(&mut self, chunk: u8) -> FieldPosition {
